@@ -354,29 +354,98 @@ NL    .fill x000A
 .end
 ",
 ];
+/// A random structured user program: arithmetic, data cells, output and input traps, subroutines that
+/// keep their return address on the stack, bounded loops; ending in HALT or in one of the faults.
+/// Returns the source and the number of keyboard bytes it consumes.
+fn gen_user_prog(rng: &mut StdRng) -> (String, usize) {
+    let mut body = String::new();
+    let mut nkeys = 0usize;
+    let nmsg = rng.random_range(1..4usize);
+    let nsub = rng.random_range(0..3usize);
+    let reg = |rng: &mut StdRng| rng.random_range(0..6u8);
+    let mut lbl = 0u32;
+    let nblocks = rng.random_range(2..9);
+    for _ in 0..nblocks {
+        match rng.random_range(0..12) {
+            0 | 1 => { for _ in 0..rng.random_range(1..4) {
+                let (d, x, y) = (reg(rng), reg(rng), reg(rng));
+                match rng.random_range(0..4) {
+                    0 => body.push_str(&format!("      ADD R{d}, R{x}, R{y}\n")),
+                    1 => body.push_str(&format!("      ADD R{d}, R{x}, #{}\n", rng.random_range(-16..16))),
+                    2 => body.push_str(&format!("      AND R{d}, R{x}, #{}\n", rng.random_range(-16..16))),
+                    _ => body.push_str(&format!("      NOT R{d}, R{x}\n")),
+                } } }
+            2 => { let c = rng.random_range(0..4); let r = reg(rng); body.push_str(&format!("      ST R{r}, CELL{c}\n")); }
+            3 => { let c = rng.random_range(0..4); let r = reg(rng); body.push_str(&format!("      LD R{r}, CELL{c}\n")); }
+            4 => { let (r, b) = (reg(rng), reg(rng)); let o = rng.random_range(0..4);
+                   body.push_str(&format!("      LEA R{b}, CELL0\n      STR R{r}, R{b}, #{o}\n      LDR R{r}, R{b}, #{}\n", rng.random_range(0..4))); }
+            5 => { let i = rng.random_range(0..nmsg); body.push_str(&format!("      LEA R0, MSG{i}\n      PUTS\n")); }
+            6 => { body.push_str(&format!("      LD R0, CH{}\n      OUT\n", rng.random_range(0..2))); }
+            7 => { body.push_str("      LEA R0, PK\n      PUTSP\n"); }
+            8 => { if nkeys < 3 { nkeys += 1; body.push_str(if chance(rng, 70) { "      GETC\n      OUT\n" } else { "      IN\n" }); } }
+            9 => { if nsub > 0 { body.push_str(&format!("      JSR SUB{}\n", rng.random_range(0..nsub))); } }
+            10 => { // a counted loop
+                lbl += 1; let r = rng.random_range(1..6u8); let n = rng.random_range(1..6);
+                body.push_str(&format!("      AND R{r}, R{r}, #0\n      ADD R{r}, R{r}, #{n}\nLP{lbl}  ADD R{}, R{}, #1\n      ADD R{r}, R{r}, #-1\n      BRp LP{lbl}\n", (r + 1) % 6, (r + 1) % 6)); }
+            _ => { // push / pop on the user stack
+                let (x, y) = (reg(rng), reg(rng));
+                body.push_str(&format!("      ADD R6, R6, #-1\n      STR R{x}, R6, #0\n      LDR R{y}, R6, #0\n      ADD R6, R6, #1\n")); }
+        }
+    }
+    let ending = match rng.random_range(0..10) {
+        0..=4 => "      HALT\n".to_string(),
+        5 => "      LD R1, LOW\n      LDR R2, R1, #0\n      HALT\n".to_string(),          // access violation (load)
+        6 => "      LD R1, LOW\n      STR R2, R1, #0\n      HALT\n".to_string(),          // access violation (store)
+        7 => "      RTI\n      HALT\n".to_string(),                                          // privilege violation
+        8 => "      .fill xD000\n      HALT\n".to_string(),                                  // illegal opcode
+        _ => "      LD R1, LOW\n      JMP R1\n      HALT\n".to_string(),                   // access violation (fetch)
+    };
+    let mut src = String::from(".orig x3000\n      LD R6, USP\n");
+    src.push_str(&body);
+    src.push_str(&ending);
+    for i in 0..nsub {
+        src.push_str(&format!("SUB{i}  ADD R6, R6, #-1\n      STR R7, R6, #0\n"));
+        if i + 1 < nsub && chance(rng, 50) { src.push_str(&format!("      JSR SUB{}\n", i + 1)); }
+        src.push_str(&format!("      ADD R{}, R{}, #{}\n", i + 1, i + 2, rng.random_range(-8..8)));
+        if chance(rng, 40) { src.push_str(&format!("      LD R0, CH{}\n      OUT\n", i % 2)); }
+        src.push_str("      LDR R7, R6, #0\n      ADD R6, R6, #1\n      RET\n");
+    }
+    src.push_str("USP   .fill xFD00\nLOW   .fill x");
+    src.push_str(pick(rng, &["0000", "0200", "2FFF", "FE00", "FFFE"]));
+    src.push_str("\nCH0   .fill x0041\nCH1   .fill x010A\nCELL0 .blkw 4\nCELL1 .fill x1234\nCELL2 .fill xFFFF\nCELL3 .fill x0000\nPK    .fill x6968\n      .fill x0021\n      .fill x0000\n");
+    let msgs = ["ok", "", "two\\nlines", "tab\\there", "Enter: "];
+    for i in 0..nmsg { src.push_str(&format!("MSG{i}  .stringz \"{}\"\n", pick(rng, &msgs))); }
+    src.push_str(".end\n");
+    (src, nkeys)
+}
+
 pub fn gen_trapmode(a: &Args, out: &mut Out) {
     let mut rng = rng_for(a, 0xD3);
-    let n = a.get_u64("n", if a.thorough() { 240 } else { 36 });
+    let n = a.get_u64("n", if a.thorough() { 400 } else { 60 });
     set_pair_tag("trapmode");
     let mut run = 1;
     for k in 0..n {
-        let which = (k as usize) % TM_PROGS.len();
+        let which = (k as usize / 3) % TM_PROGS.len();
+        // two of three programs are generated
+        let (gsrc, gkeys) = gen_user_prog(&mut rng);
+        let src: String = if k % 3 == 0 { TM_PROGS[which].to_string() } else { gsrc };
         let fillv: u16 = pick(&mut rng, &[0u16, 0x7777]);
         let dbg = chance(&mut rng, 30);
         let seed: u64 = rng.random();
-        let ignp = chance(&mut rng, 30);
+        let ignp = chance(&mut rng, 20);
+        let obj = assemble_src(&src);
         for real in [false, true] {
             let mut r2 = StdRng::seed_from_u64(seed);
             let mut fl = known(fillv, real, dbg);
             fl.ignore_privilege = ignp;
             let mut m = M::new(run, fl, out); run += 1;
-            m.load(out, &assemble_src(TM_PROGS[which]));
+            m.load(out, &obj);
             for r in 0..6u8 { let x = word(interesting(&mut r2), 0xFFFF); m.set_reg(out, r, x); }
             m.set_reg(out, 6, word(0xFD00, 0xFFFF));
-            let ks: Vec<u8> = (0..r2.random_range(1..4)).map(|_| r2.random()).collect();
+            let ks: Vec<u8> = (0..r2.random_range(1..4).max(if k % 3 == 0 { 0 } else { gkeys })).map(|_| r2.random()).collect();
             m.keys(out, &ks);
             m.add_intfn(out);
-            m.run_call(out, "run", 0, &[], 1200);
+            m.run_call(out, "run", 0, &[], 2500);
             m.end(out);
         }
     }
